@@ -94,7 +94,12 @@ fn exec_step(engine: &mut Engine, step: &Step) -> Result<Vec<String>, (String, S
             let ctl = engine.get_thread_state_controller();
             let ctl2 = ctl.clone();
             let base = verif::STEPS.load(Ordering::SeqCst);
-            verif::arm_interrupt(base + *after_steps, Box::new(move || ctl2.interrupt()));
+            // bit 62 of the step count selects the hook's late mode: the request is raised after the
+            // interrupt check of that step, so the step's instruction runs with the request pending
+            let late = *after_steps & (1 << 62) != 0;
+            let after = *after_steps & !(1u64 << 62);
+            verif::INTERRUPT_AFTER_CHECK.store(late, Ordering::SeqCst);
+            verif::arm_interrupt(base + after, Box::new(move || ctl2.interrupt()));
             // Fallback for code that runs without passing the counted dispatch point: a timer
             // delivers the interrupt if the armed step count was not reached in time.
             let done = std::sync::Arc::new(std::sync::atomic::AtomicBool::new(false));
